@@ -14,6 +14,7 @@ def groups(tier, seed):
     sel = (lambda g: ".view1" in g.gid) if tier == "quick" else (lambda g: "view" in g.gid)
     gs += [g for g in C13.rowop_groups(tier) if sel(g) and not any(x in g.gid for x in ("read_bit.", "x1.view", "x64.view"))]
     gs += [g for g in C13.perm_groups(tier) if "view" in g.gid]
+    gs += [g for g in C13.compress_groups(tier) if "view" in g.gid and ".7x70." in g.gid]   # the frame clause that exposed finding F17
     gs += [g for g in C17.obs_groups(tier) if "view1" in g.gid and ("x65" in g.gid or "x130" in g.gid or "x10." in g.gid)]
     gs += [g for g in C08.move_groups(tier) if "view1" in g.gid and not g.gid.startswith("K.mzd_transpose.")][: (60 if tier == "quick" else 10000)]
     gs += [g for g in C08.move_groups(tier) if g.gid.startswith("K.mzd_transpose.") and "view1" in g.gid][:4]
